@@ -794,6 +794,94 @@ func closeWithQueuedOps(id string, seed uint64) runner.Result {
 	return res
 }
 
+// closeAfterReset: the peer goes away with a connection reset (what a TCP connection reports after a
+// RST) while the endpoint is idle, blocked in a receive or between two RPCs; only then the application
+// closes its side (Conn.Close) or Serve's context is cancelled. Close and ServeOne return, the
+// transport is closed exactly once, nothing stays behind.
+func closeAfterReset(id string, seed uint64) runner.Result {
+	base := census.IDs(census.Snapshot())
+	r := &payload.SplitMix{S: seed}
+	opts := drpcmanager.Options{SoftCancel: r.Intn(2) == 0}
+	state := payload.Pick(r, []string{"idle", "after-an-rpc", "receive-pending"})
+	victim := payload.Pick(r, []string{"client", "server"})
+	handler := rig.HandlerFunc(func(stream drpc.Stream, rpc string) error {
+		var m []byte
+		if err := stream.MsgRecv(&m, payload.Enc{}); err != nil {
+			return err
+		}
+		if rpc == "/wait" {
+			return stream.MsgRecv(&m, payload.Enc{})
+		}
+		return stream.MsgSend(&m, payload.Enc{})
+	})
+	rg := rig.New(rig.Config{Net: simnet.Opts{Cap: -1}, Client: opts, Server: opts}, handler)
+	in := payload.Make(1, 0, 0, 0, 10)
+	var out []byte
+	if state != "idle" {
+		rg.Conn.Invoke(context.Background(), "/echo", payload.Enc{}, &in, &out)
+	}
+	var pending *rig.Op
+	if state == "receive-pending" {
+		pending = rig.Go("pending", func() (interface{}, error) {
+			st, err := rg.Conn.NewStream(context.Background(), "/wait", payload.Enc{})
+			if err != nil {
+				return nil, err
+			}
+			defer st.Close()
+			st.MsgSend(&in, payload.Enc{})
+			return nil, st.MsgRecv(&out, payload.Enc{})
+		})
+	}
+	census.Quiesce(rig.Watchdog)
+	// the other side's endpoint resets: this side's reads fail with ECONNRESET
+	if victim == "client" {
+		rg.Pair.B.Reset()
+	} else {
+		rg.Pair.A.Reset()
+	}
+	census.Quiesce(rig.Watchdog)
+	desc := fmt.Sprintf("%s sees a connection reset while %s (soft=%v); then Conn.Close and Serve's context cancelled", victim, state, opts.SoftCancel)
+	cl := rig.Go("conn.Close", func() (interface{}, error) { return nil, rg.Conn.Close() })
+	rg.StopServe()
+	stq, snap := census.QuiesceOr(nil, rig.Watchdog)
+	if stq == "watchdog" {
+		rg.Teardown()
+		return runner.Inconcl(id, "watchdog: "+desc)
+	}
+	var fails []string
+	if !cl.Returned() {
+		fails = append(fails, "Conn.Close has not returned\n"+census.Dump(census.InDRPC(snap)))
+	}
+	if !rg.ServeOp.Returned() && len(fails) == 0 {
+		fails = append(fails, "ServeOne has not returned\n"+census.Dump(census.InDRPC(snap)))
+	}
+	if pending != nil && !pending.Returned() && len(fails) == 0 {
+		fails = append(fails, "the pending receive has not returned")
+	}
+	for name, e := range map[string]*simnet.End{"client": rg.Pair.A, "server": rg.Pair.B} {
+		want := 1
+		if name != victim {
+			want = 2 // the harness' own Reset of that endpoint is counted with the library's Close
+		}
+		if n := e.CloseCount(); n != want && len(fails) == 0 {
+			fails = append(fails, fmt.Sprintf("the %s transport was closed %d times, want %d (the library's one Close, plus the harness' Reset on the side that reset)", name, n, want))
+		}
+	}
+	rg.Pair.A.Close()
+	rg.Pair.B.Close()
+	_, snap = census.Quiesce(rig.Watchdog)
+	if left := census.NewSince(census.InDRPC(snap), base); len(left) > 0 && len(fails) == 0 {
+		fails = append(fails, "library goroutines left behind:\n"+census.Dump(left))
+	}
+	rg.Teardown()
+	if len(fails) > 0 {
+		return runner.Violation(id, "close:after-reset:"+keyOf(fails[0]), desc+"\n"+strings.Join(fails, "\n"))
+	}
+	res := runner.Hold(id, desc, true)
+	res.Events = 2
+	return res
+}
+
 // pooledClose: real connections behind a drpcpool handle. A stream is opened through the handle (which
 // dials), the handle is closed while the stream is still active or right after it ended, the stream
 // ends, and finally the pool is closed. Everything the handle dialed must be released: each transport
@@ -1036,6 +1124,11 @@ func gen(tier string, seed uint64) []runner.Scenario {
 		i := i
 		id := fmt.Sprintf("stalled-peer-serve-cancel/%d", i)
 		out = append(out, runner.Scenario{ID: id, Run: func() runner.Result { return stalledPeerServeCancel(id, payload.Hash(seed, 0xC124, uint64(i))) }})
+	}
+	for i := 0; i < ne; i++ {
+		i := i
+		id := fmt.Sprintf("close-after-reset/%d", i)
+		out = append(out, runner.Scenario{ID: id, Run: func() runner.Result { return closeAfterReset(id, payload.Hash(seed, 0xC127, uint64(i))) }})
 	}
 	for i := 0; i < ne; i++ {
 		i := i
